@@ -437,27 +437,171 @@ theorem Clean.noSlash {n : List Char} (h : Clean n) : n.any (· == '/') = false 
   rw [List.any_eq_false]
   intro c hc; simpa using (h.chars c hc).2.1
 
-/-- **`name`** — a slash-free gitignore line becomes the glob `**/name`: not a negation, not directory-only -/
-theorem addLine_name (n : List Char) (h : Clean n) :
-    addLine n = some (some ⟨n, .recPrefix :: lits n, false, false⟩) := by
+end Sp.Glob
+
+namespace Sp.Glob
+/-! ### any line of the grammar: optional `!`, a core without blanks, optional trailing `/` -/
+
+/-- a core pattern: non-empty, no blanks, does not start like a comment, a negation or an escape, does not end with a
+    slash or a backslash, and is not the bare `/` -/
+structure LineOk (core : List Char) : Prop where
+  ne : core ≠ []
+  noBlank : ∀ c ∈ core, c.isWhitespace = false
+  first : core.head? ≠ some '#' ∧ core.head? ≠ some '!' ∧ core.head? ≠ some '\\'
+  last : core.getLast? ≠ some '/' ∧ core.getLast? ≠ some '\\'
+
+/-- the core without its anchoring slash -/
+def unanchored (core : List Char) : List Char := if startsWith core ['/'] then core.drop 1 else core
+
+theorem trimRight_noBlank {l : List Char} (hne : l ≠ []) (h : ∀ c ∈ l, c.isWhitespace = false) : trimRight l = l := by
+  unfold trimRight
+  cases hr : l.reverse with
+  | nil => exact absurd (by simpa using hr) hne
+  | cons a rr =>
+    have : a ∈ l := by have : a ∈ l.reverse := by rw [hr]; exact List.mem_cons_self
+                       simpa using this
+    rw [List.dropWhile_cons_of_neg (by simp [h a this]), ← hr, List.reverse_reverse]
+
+theorem endsWith_esc_noBlank {l : List Char} (h : ∀ c ∈ l, c.isWhitespace = false) : endsWith l ['\\', ' '] = false := by
+  unfold endsWith
+  cases hr : l.reverse with
+  | nil => simp
+  | cons a rr =>
+    have : a ∈ l := by have : a ∈ l.reverse := by rw [hr]; exact List.mem_cons_self
+                       simpa using this
+    have hw := h a this
+    have : a ≠ ' ' := by intro e; subst e; simp at hw
+    cases rr <;> simp [this]
+
+theorem linePrefix_ok (neg : Bool) (core tail : List Char) (h : LineOk core) :
+    linePrefix ((if neg then ['!'] else []) ++ core ++ tail) = (neg, startsWith core ['/'], unanchored core ++ tail) := by
+  obtain ⟨c, r, rfl⟩ : ∃ c r, core = c :: r := by
+    cases core with
+    | nil => exact absurd rfl h.ne
+    | cons c r => exact ⟨c, r, rfl⟩
+  have h2 : c ≠ '!' := by have := h.first.2.1; simpa using this
+  have h3 : c ≠ '\\' := by have := h.first.2.2; simpa using this
+  unfold linePrefix unanchored
+  cases neg
+  · by_cases hs : c = '/'
+    · subst hs; simp [startsWith]
+    · simp [startsWith, h2, h3, hs]
+  · by_cases hs : c = '/'
+    · subst hs; simp [startsWith]
+    · simp [startsWith, hs]
+
+theorem unanchored_last {core : List Char} (h : LineOk core) :
+    unanchored core ≠ [] ∧ (unanchored core).getLast? ≠ some '/' ∧ (unanchored core).getLast? ≠ some '\\' := by
+  unfold unanchored
+  split
+  · next hs =>
+    cases core with
+    | nil => exact absurd rfl h.ne
+    | cons c r =>
+      cases r with
+      | nil =>
+        have : c = '/' := by simpa [startsWith] using hs
+        subst this; exact absurd rfl h.last.1
+      | cons d r' =>
+        have l1 := h.last.1; have l2 := h.last.2
+        simp only [List.getLast?_cons_cons] at l1 l2
+        exact ⟨by simp, by simpa using l1, by simpa using l2⟩
+  · exact ⟨h.ne, h.last.1, h.last.2⟩
+
+theorem lineDir_ok (onlyDir : Bool) (x : List Char) (hne : x ≠ []) (h1 : x.getLast? ≠ some '/') (h2 : x.getLast? ≠ some '\\') :
+    lineDir (x ++ (if onlyDir then ['/'] else [])) = (onlyDir, x) := by
+  unfold lineDir
+  cases onlyDir
+  · simp only [Bool.false_eq_true, if_false, List.append_nil]
+    have : (x.getLast? == some '/') = false := by
+      cases hx : x.getLast? with
+      | none => rfl
+      | some a => rw [hx] at h1; simp at h1 ⊢; exact h1
+    simp [this]
+  · simp only [if_true]
+    have e1 : (x ++ ['/']).getLast? = some '/' := by simp
+    have e2 : (x ++ ['/']).dropLast = x := by simp
+    have : (x.getLast? == some '\\') = false := by
+      cases hx : x.getLast? with
+      | none => rfl
+      | some a => rw [hx] at h2; simp at h2 ⊢; exact h2
+    simp [e1, e2, this]
+
+/-- **every line of the grammar** — `[!]core[/]`: the glob handed to the parser is `lineGlob` of the core without its
+    anchoring slash; the negation and directory-only flags are exactly the `!` and the trailing `/` -/
+theorem addLine_ok (neg onlyDir : Bool) (core : List Char) (h : LineOk core) :
+    addLine ((if neg then ['!'] else []) ++ core ++ (if onlyDir then ['/'] else [])) =
+      match parse (lineGlob (startsWith core ['/']) (unanchored core)) with
+      | some toks => some (some ⟨(if neg then ['!'] else []) ++ core ++ (if onlyDir then ['/'] else []), toks, neg, onlyDir⟩)
+      | none => some none := by
+  have hc1 : core.head? ≠ some '#' := h.first.1
+  generalize hfull : (if neg then ['!'] else []) ++ core ++ (if onlyDir then ['/'] else []) = full
+  have hfb : ∀ d ∈ full, d.isWhitespace = false := by
+    intro d hd
+    rw [← hfull] at hd
+    simp only [List.mem_append] at hd
+    rcases hd with (hd | hd) | hd
+    · cases neg <;> simp at hd; subst hd; decide
+    · exact h.noBlank d hd
+    · cases onlyDir <;> simp at hd; subst hd; decide
+  have hfne : full ≠ [] := by
+    rw [← hfull]
+    cases core with
+    | nil => exact absurd rfl h.ne
+    | cons c r => cases neg <;> simp
+  have hhash : startsWith full ['#'] = false := by
+    rw [← hfull]
+    cases core with
+    | nil => exact absurd rfl h.ne
+    | cons c r =>
+      have h1 : c ≠ '#' := by simpa using hc1
+      cases neg <;> simp [startsWith, h1]
+  have hemp : full.isEmpty = false := by cases full with | nil => exact absurd rfl hfne | cons _ _ => rfl
+  unfold addLine
+  simp only [hhash, Bool.false_eq_true, if_false, endsWith_esc_noBlank hfb, trimRight_noBlank hfne hfb, hemp]
+  have hp : linePrefix full = (neg, startsWith core ['/'], unanchored core ++ (if onlyDir then ['/'] else [])) := by
+    rw [← hfull]; exact linePrefix_ok neg core _ h
+  obtain ⟨u1, u2, u3⟩ := unanchored_last h
+  have hd := lineDir_ok onlyDir (unanchored core) u1 u2 u3
+  rw [hp]
+  simp only []
+  rw [hd]
+  cases parse (lineGlob (startsWith core ['/']) (unanchored core)) <;> rfl
+
+/-- a `Clean` name is a core pattern -/
+theorem Clean.lineOk {n : List Char} (h : Clean n) : LineOk n := by
+  obtain ⟨l, hl, hlp, hls⟩ := h.getLast
+  have hlb : l ≠ '\\' := by
+    simp only [plain, Bool.and_eq_true, bne_iff_ne, ne_eq] at hlp; exact hlp.1.2
+  refine ⟨h.ne, fun c hc => (h.chars c hc).2.2, ⟨h.first.1, h.first.2, ?_⟩, ?_, ?_⟩
+  · cases n with
+    | nil => exact absurd rfl h.ne
+    | cons c r =>
+      have hp := (h.chars c List.mem_cons_self).1
+      simp only [plain, Bool.and_eq_true, bne_iff_ne, ne_eq] at hp
+      simpa using hp.1.2
+  · rw [hl]; simpa using hls
+  · rw [hl]; simpa using hlb
+
+theorem Clean.unanchored {n : List Char} (h : Clean n) : startsWith n ['/'] = false ∧ unanchored n = n := by
+  cases n with
+  | nil => exact absurd rfl h.ne
+  | cons c r =>
+    have hs := (h.chars c List.mem_cons_self).2.1
+    have : startsWith (c :: r) ['/'] = false := startsWith_cons_ne hs
+    exact ⟨this, by simp [Sp.Glob.unanchored, this]⟩
+
+theorem Clean.lineGlob {n : List Char} (h : Clean n) : lineGlob false n = '*' :: '*' :: '/' :: n := by
   obtain ⟨c, r, rfl⟩ : ∃ c r, n = c :: r := by
     cases n with
     | nil => exact absurd rfl h.ne
     | cons c r => exact ⟨c, r, rfl⟩
-  have hc := h.chars c List.mem_cons_self
-  have hpl : plain c = true := hc.1
+  have hpl := (h.chars c List.mem_cons_self).1
   simp only [plain, Bool.and_eq_true, bne_iff_ne, ne_eq] at hpl
-  obtain ⟨⟨⟨_, _⟩, hbs⟩, hst⟩ := hpl
-  have h1 : c ≠ '#' := by have := h.first.1; simpa using this
-  have h2 : c ≠ '!' := by have := h.first.2; simpa using this
+  have hst : c ≠ '*' := hpl.2
   obtain ⟨l, hl, hlp, hls⟩ := h.getLast
   have hlstar : l ≠ '*' := by
     simp only [plain, Bool.and_eq_true, bne_iff_ne, ne_eq] at hlp; exact hlp.2
-  have e1 : startsWith (c :: r) ['#'] = false := startsWith_cons_ne h1
-  have e2 : startsWith (c :: r) ['\\', '!'] = false := by simp [startsWith, hbs]
-  have e3 : startsWith (c :: r) ['\\', '#'] = false := by simp [startsWith, hbs]
-  have e4 : startsWith (c :: r) ['!'] = false := startsWith_cons_ne h2
-  have e5 : startsWith (c :: r) ['/'] = false := startsWith_cons_ne hc.2.1
   have e6 : startsWith (c :: r) ['*', '*', '/'] = false := by simp [startsWith, hst]
   have e7 : ((c :: r) == ['*', '*']) = false := by simp [hst]
   have e8 : endsWith ('*' :: '*' :: '/' :: c :: r) ['/', '*', '*'] = false := by
@@ -471,12 +615,259 @@ theorem addLine_name (n : List Char) (h : Clean n) :
       rw [hr]; simp
     rw [this, hl']
     cases rr <;> simp [hlstar]
-  unfold addLine
-  simp only [e1, h.noEsc, h.trim, Bool.false_eq_true, if_false, List.isEmpty_cons, e2, e3, Bool.or_self, e4, e5, hl,
-    h.noSlash, Bool.not_false, Bool.and_self, if_true, e6, e7, e8]
-  have hls' : (some l == some '/') = false := by simp [hls]
-  simp only [hls', Bool.false_eq_true, if_false, List.cons_append, List.nil_append, e8]
-  rw [parse_recPrefix_plain (c :: r) (fun d hd => (h.chars d hd).1)]
+  have hns : ((c :: r).any fun x => x == '/') = false := h.noSlash
+  unfold Sp.Glob.lineGlob
+  simp only [hns, e6, e7, Bool.not_false, Bool.and_self, Bool.or_self, Bool.false_eq_true, if_false, if_true, List.cons_append,
+    List.nil_append, e8]
+
+/-- **`name`, `!name`, `name/`, `!name/`** — a slash-free line becomes the glob `**/name`, negated by a leading `!`,
+    directories only with a trailing `/` -/
+theorem addLine_name (neg onlyDir : Bool) (n : List Char) (h : Clean n) :
+    addLine ((if neg then ['!'] else []) ++ n ++ (if onlyDir then ['/'] else [])) =
+      some (some ⟨(if neg then ['!'] else []) ++ n ++ (if onlyDir then ['/'] else []), .recPrefix :: lits n, neg, onlyDir⟩) := by
+  rw [addLine_ok neg onlyDir n h.lineOk, h.unanchored.1, h.unanchored.2, h.lineGlob,
+    parse_recPrefix_plain n (fun d hd => (h.chars d hd).1)]
+
+/-- … and such a glob matches exactly the paths whose last component is `name` (`recPrefix_lits_iff`) -/
+theorem name_matches (n s : List Char) (h : Clean n) :
+    mtch (.recPrefix :: lits n) s = true ↔ s = n ∨ ∃ pre, s = pre ++ '/' :: n := by
+  have : (Tok.recPrefix :: lits n == [Tok.recPrefix]) = false := by
+    cases n with
+    | nil => exact absurd rfl h.ne
+    | cons c r => simp [lits]
+  unfold mtch
+  simp only [this, Bool.false_eq_true, if_false]
+  exact recPrefix_lits_iff n s
 
 #print axioms addLine_name
+#print axioms addLine_ok
+end Sp.Glob
+
+namespace Sp.Glob
+/-! ### the other shapes of the grammar, line by line -/
+
+theorem endsWith_last_ne {l suf : List Char} {a b : Char} (hl : l.getLast? = some a) (hs : suf.getLast? = some b) (hne : a ≠ b) :
+    endsWith l suf = false := by
+  unfold endsWith
+  rw [List.getLast?_eq_head?_reverse] at hl hs
+  cases hr : l.reverse with
+  | nil => rw [hr] at hl; cases hl
+  | cons x xs =>
+    rw [hr] at hl; simp only [List.head?_cons, Option.some.injEq] at hl; subst hl
+    cases hq : suf.reverse with
+    | nil => rw [hq] at hs; cases hs
+    | cons y ys =>
+      rw [hq] at hs; simp only [List.head?_cons, Option.some.injEq] at hs; subst hs
+      have : suf.length = ys.length + 1 := by have := congrArg List.length hq; simpa using this
+      rw [this]
+      simp [hne]
+
+/-- a core whose last character is not `*` is handed over unchanged, apart from the `**/` in front of slash-free ones -/
+theorem lineGlob_noStar (abs : Bool) (line : List Char) (a : Char) (hl : line.getLast? = some a) (ha : a ≠ '*') :
+    lineGlob abs line =
+      if !abs && !line.any (· == '/') then
+        (if startsWith line ['*', '*', '/'] || line == ['*', '*'] then line else '*' :: '*' :: '/' :: line)
+      else line := by
+  unfold lineGlob
+  simp only []
+  have e1 : endsWith line ['/', '*', '*'] = false := endsWith_last_ne hl (by simp) ha
+  have e2 : endsWith ('*' :: '*' :: '/' :: line) ['/', '*', '*'] = false :=
+    endsWith_last_ne (a := a) (by
+      cases line with
+      | nil => cases hl
+      | cons c r => simpa [List.getLast?_cons_cons] using hl) (by simp) ha
+  split
+  · split
+    · simp [e1]
+    · simp [e2]
+  · simp [e1]
+
+theorem Clean.plainAll {n : List Char} (h : Clean n) : ∀ c ∈ n, plain c = true := fun c hc => (h.chars c hc).1
+
+theorem Clean.lastNe {n : List Char} (h : Clean n) : ∃ a, n.getLast? = some a ∧ a ≠ '*' ∧ a ≠ '/' ∧ a ≠ '\\' := by
+  obtain ⟨l, hl, hlp, hls⟩ := h.getLast
+  simp only [plain, Bool.and_eq_true, bne_iff_ne, ne_eq] at hlp
+  exact ⟨l, hl, hlp.2, hls, hlp.1.2⟩
+
+/-- **`/rooted`** (also `!/rooted`, `/rooted/`): anchored — the glob is the literal relative path -/
+theorem addLine_rooted (neg onlyDir : Bool) (n : List Char) (h : Clean n) :
+    addLine ((if neg then ['!'] else []) ++ '/' :: n ++ (if onlyDir then ['/'] else [])) =
+      some (some ⟨(if neg then ['!'] else []) ++ '/' :: n ++ (if onlyDir then ['/'] else []), lits n, neg, onlyDir⟩) := by
+  obtain ⟨a, hl, hstar, hsl, hbs⟩ := h.lastNe
+  have hl' : ('/' :: n).getLast? = some a := by
+    cases n with
+    | nil => exact absurd rfl h.ne
+    | cons c r => simpa [List.getLast?_cons_cons] using hl
+  have ok : LineOk ('/' :: n) := by
+    refine ⟨by simp, ?_, ⟨by simp, by simp, by simp⟩, ?_, ?_⟩
+    · intro c hc; rcases List.mem_cons.1 hc with rfl | hc
+      · decide
+      · exact (h.chars c hc).2.2
+    · rw [hl']; simpa using hsl
+    · rw [hl']; simpa using hbs
+  have hu : unanchored ('/' :: n) = n := by simp [unanchored, startsWith]
+  have hs : startsWith ('/' :: n) ['/'] = true := by simp [startsWith]
+  have := addLine_ok neg onlyDir ('/' :: n) ok
+  rw [hu, hs, lineGlob_noStar true n a hl hstar] at this
+  simp only [Bool.not_true, Bool.false_and, Bool.false_eq_true, if_false] at this
+  rw [parse_plain n h.plainAll] at this
+  simpa using this
+
+/-- … which matches that path only -/
+theorem rooted_matches (n s : List Char) (h : Clean n) : mtch (lits n) s = true ↔ s = n := by
+  have : (lits n == [Tok.recPrefix]) = false := by
+    cases n with
+    | nil => exact absurd rfl h.ne
+    | cons c r => cases r <;> simp [lits]
+  unfold mtch
+  simp only [this, Bool.false_eq_true, if_false]
+  exact lits_iff n s
+
+/-- **`a/b`** (a slash inside, not anchored): NOT prefixed with `**/` — the glob is the literal relative path, exactly as
+    for `/a/b` -/
+theorem addLine_inner_slash (neg onlyDir : Bool) (a b : List Char) (ha : Clean a) (hb : Clean b) :
+    addLine ((if neg then ['!'] else []) ++ (a ++ '/' :: b) ++ (if onlyDir then ['/'] else [])) =
+      some (some ⟨(if neg then ['!'] else []) ++ (a ++ '/' :: b) ++ (if onlyDir then ['/'] else []), lits (a ++ '/' :: b), neg, onlyDir⟩) := by
+  obtain ⟨z, hl, hstar, hsl, hbs⟩ := hb.lastNe
+  have hl' : (a ++ '/' :: b).getLast? = some z := by
+    cases b with
+    | nil => exact absurd rfl hb.ne
+    | cons c r => rw [List.getLast?_append]; simp only [List.getLast?_cons_cons] at hl ⊢; simp [hl]
+  obtain ⟨c, r, rfl⟩ : ∃ c r, a = c :: r := by
+    cases a with
+    | nil => exact absurd rfl ha.ne
+    | cons c r => exact ⟨c, r, rfl⟩
+  have hc := ha.chars c List.mem_cons_self
+  have hcp := hc.1
+  simp only [plain, Bool.and_eq_true, bne_iff_ne, ne_eq] at hcp
+  have ok : LineOk (c :: r ++ '/' :: b) := by
+    refine ⟨by simp, ?_, ⟨?_, ?_, ?_⟩, ?_, ?_⟩
+    · intro d hd
+      rcases List.mem_append.1 hd with hd | hd
+      · exact (ha.chars d hd).2.2
+      · rcases List.mem_cons.1 hd with rfl | hd
+        · decide
+        · exact (hb.chars d hd).2.2
+    · have := ha.first.1; simpa using this
+    · have := ha.first.2; simpa using this
+    · simpa using hcp.1.2
+    · rw [hl']; simpa using hsl
+    · rw [hl']; simpa using hbs
+  have hs : startsWith (c :: r ++ '/' :: b) ['/'] = false := by simp [startsWith, hc.2.1]
+  have hu : unanchored (c :: r ++ '/' :: b) = c :: r ++ '/' :: b := by unfold unanchored; rw [hs]; rfl
+  have hany : (c :: r ++ '/' :: b).any (· == '/') = true := by simp
+  have hall : ∀ d ∈ c :: r ++ '/' :: b, plain d = true := by
+    intro d hd
+    rcases List.mem_append.1 hd with hd | hd
+    · exact (ha.chars d hd).1
+    · rcases List.mem_cons.1 hd with rfl | hd
+      · exact plain_slash
+      · exact (hb.chars d hd).1
+  have := addLine_ok neg onlyDir (c :: r ++ '/' :: b) ok
+  rw [hu, hs, lineGlob_noStar false _ z hl' hstar] at this
+  simp only [hany, Bool.not_false, Bool.not_true, Bool.and_false, Bool.false_eq_true, if_false] at this
+  rw [parse_plain _ hall] at this
+  simpa using this
+
+#print axioms addLine_rooted
+#print axioms addLine_inner_slash
+end Sp.Glob
+
+namespace Sp.Glob
+
+/-- **`*.ext`** (also `!*.ext`): slash-free, so it applies at every depth — the glob is `**/*.ext` -/
+theorem addLine_star_ext (neg onlyDir : Bool) (e : List Char) (h : Clean e) :
+    addLine ((if neg then ['!'] else []) ++ '*' :: '.' :: e ++ (if onlyDir then ['/'] else [])) =
+      some (some ⟨(if neg then ['!'] else []) ++ '*' :: '.' :: e ++ (if onlyDir then ['/'] else []),
+        .recPrefix :: .star :: lits ('.' :: e), neg, onlyDir⟩) := by
+  obtain ⟨a, hl, hstar, hsl, hbs⟩ := h.lastNe
+  obtain ⟨c, r, rfl⟩ : ∃ c r, e = c :: r := by
+    cases e with
+    | nil => exact absurd rfl h.ne
+    | cons c r => exact ⟨c, r, rfl⟩
+  have hl' : ('*' :: '.' :: c :: r).getLast? = some a := by simpa [List.getLast?_cons_cons] using hl
+  have ok : LineOk ('*' :: '.' :: c :: r) := by
+    refine ⟨by simp, ?_, ⟨by simp, by simp, by simp⟩, ?_, ?_⟩
+    · intro d hd
+      rcases List.mem_cons.1 hd with rfl | hd
+      · decide
+      · rcases List.mem_cons.1 hd with rfl | hd
+        · decide
+        · exact (h.chars d hd).2.2
+    · rw [hl']; simpa using hsl
+    · rw [hl']; simpa using hbs
+  have hs : startsWith ('*' :: '.' :: c :: r) ['/'] = false := by simp [startsWith]
+  have hu : unanchored ('*' :: '.' :: c :: r) = '*' :: '.' :: c :: r := by unfold unanchored; rw [hs]; rfl
+  have hany : ('*' :: '.' :: c :: r).any (· == '/') = false := by
+    have := h.noSlash
+    simp only [List.any_cons] at this ⊢
+    simpa using this
+  have e6 : startsWith ('*' :: '.' :: c :: r) ['*', '*', '/'] = false := by simp [startsWith]
+  have e7 : (('*' :: '.' :: c :: r) == ['*', '*']) = false := by simp
+  have := addLine_ok neg onlyDir ('*' :: '.' :: c :: r) ok
+  rw [hu, hs, lineGlob_noStar false _ a hl' hstar] at this
+  simp only [hany, e6, e7, Bool.not_false, Bool.and_self, Bool.or_self, Bool.false_eq_true, if_false, if_true] at this
+  rw [parse_star_ext (c :: r) h.plainAll] at this
+  simpa using this
+
+/-- … which matches exactly the paths whose last component ends with `.ext` (`star_ext_iff`) -/
+theorem star_ext_matches (e s : List Char) :
+    mtch (.recPrefix :: .star :: lits ('.' :: e)) s = true ↔
+      ∃ pre stem, (s = stem ++ '.' :: e ∨ s = pre ++ '/' :: (stem ++ '.' :: e)) ∧ ∀ c ∈ stem, c ≠ '/' := by
+  have : (Tok.recPrefix :: Tok.star :: lits ('.' :: e) == [Tok.recPrefix]) = false := by simp [lits]
+  unfold mtch
+  simp only [this, Bool.false_eq_true, if_false]
+  exact star_ext_iff ('.' :: e) s
+
+/-- **`x/**`** (also `!x/**`): everything strictly below `x` — the glob is `x/**/*` -/
+theorem addLine_dir_contents (neg : Bool) (x : List Char) (h : Clean x) :
+    addLine ((if neg then ['!'] else []) ++ (x ++ ['/', '*', '*'])) =
+      some (some ⟨(if neg then ['!'] else []) ++ (x ++ ['/', '*', '*']), lits x ++ [.recMid, .star], neg, false⟩) := by
+  obtain ⟨c, r, rfl⟩ : ∃ c r, x = c :: r := by
+    cases x with
+    | nil => exact absurd rfl h.ne
+    | cons c r => exact ⟨c, r, rfl⟩
+  have hc := h.chars c List.mem_cons_self
+  have hcp := hc.1
+  simp only [plain, Bool.and_eq_true, bne_iff_ne, ne_eq] at hcp
+  have hlast : (c :: r ++ ['/', '*', '*']).getLast? = some '*' := by
+    rw [List.getLast?_append]; simp
+  have ok : LineOk (c :: r ++ ['/', '*', '*']) := by
+    refine ⟨by simp, ?_, ⟨?_, ?_, ?_⟩, ?_, ?_⟩
+    · intro d hd
+      rcases List.mem_append.1 hd with hd | hd
+      · exact (h.chars d hd).2.2
+      · simp only [List.mem_cons, List.mem_nil_iff, or_false] at hd
+        rcases hd with rfl | rfl | rfl <;> decide
+    · have := h.first.1; simpa using this
+    · have := h.first.2; simpa using this
+    · simpa using hcp.1.2
+    · rw [hlast]; simp
+    · rw [hlast]; simp
+  have hs : startsWith (c :: r ++ ['/', '*', '*']) ['/'] = false := by simp [startsWith, hc.2.1]
+  have hu : unanchored (c :: r ++ ['/', '*', '*']) = c :: r ++ ['/', '*', '*'] := by unfold unanchored; rw [hs]; rfl
+  have hany : (c :: r ++ ['/', '*', '*']).any (· == '/') = true := by simp
+  have hends : endsWith (c :: r ++ ['/', '*', '*']) ['/', '*', '*'] = true := by
+    unfold endsWith; simp
+  have hg : lineGlob false (c :: r ++ ['/', '*', '*']) = (c :: r) ++ ['/', '*', '*', '/', '*'] := by
+    unfold lineGlob
+    simp only [hany, Bool.not_false, Bool.not_true, Bool.and_false, Bool.false_eq_true, if_false, hends, if_true]
+    simp
+  have := addLine_ok neg false (c :: r ++ ['/', '*', '*']) ok
+  rw [hu, hs, hg, parse_dir_contents (c :: r) h.plainAll] at this
+  simpa using this
+
+/-- … which matches exactly the paths strictly below `x` (`dir_contents_iff`) -/
+theorem dir_contents_matches (x s : List Char) (h : Clean x) :
+    mtch (lits x ++ [.recMid, .star]) s = true ↔ ∃ rest, s = x ++ '/' :: rest := by
+  have : (lits x ++ [Tok.recMid, Tok.star] == [Tok.recPrefix]) = false := by
+    cases x with
+    | nil => exact absurd rfl h.ne
+    | cons c r => cases r <;> simp [lits]
+  unfold mtch
+  simp only [this, Bool.false_eq_true, if_false]
+  exact dir_contents_iff x s
+
+#print axioms addLine_star_ext
+#print axioms addLine_dir_contents
 end Sp.Glob
